@@ -7,6 +7,7 @@ CONSTANTS
   ChmodGate = FALSE
   CopyGate = TRUE
   Truncates = TRUE
+  PPOrder = "program_first"
   Privileged = TRUE
   OptsSel = "all"
   EnvOn = TRUE
